@@ -146,3 +146,53 @@ def install(reg):
                 ("places_present_at_head", z3.And(G.nodes(c.at_head(0, "result"))[c.fixed_place], G.nodes(c.at_head(0, "result"))[c.inverse_place]))]),
         },
     ))
+
+
+# ====================================================================== names of the encoded network (C09, C02, C19)
+def install_names(reg):
+    from pyvc import aspmodel as A
+    LNm = A.LNm
+    G_ = P.PNGraph
+    vq, nq = z3.Const("v!nm", Name), z3.Const("n!nm", P.PNode)
+    a_, b_ = z3.Int("a!nm"), z3.Int("b!nm")
+    OptN = TOpt(TName)
+
+    def wf_names(c):
+        """place nodes are named by the injective encoding (what network_to_petrinet produces)"""
+        g = c.encoded_network
+        return z3.ForAll([nq], z3.Implies(z3.And(G_.nodes(g)[nq], P.is_place(nq)), nq == P.place(P.pvar(nq), P.ppos(nq))))
+
+    def distinct(l):
+        return z3.ForAll([a_, b_], z3.Implies(z3.And(0 <= a_, a_ < b_, b_ < LNm.len(l)), LNm.at(l)[a_] != LNm.at(l)[b_]))
+
+    reg.add(Contract(
+        "biobalm.petri_net_translation.extract_variable_names", params=[("encoded_network", P.TPNG)], result_type=LNm,
+        properties=("C09", "C02", "C19", "C17"),
+        requires=[wf_names],
+        ensures=[("sorted_enumeration_of_the_variables", lambda c: c.result == A.SortedNames(A.VarSetG(c.encoded_network))),
+                 ("element_set", lambda c: A.LSetF(c.result) == A.VarSetG(c.encoded_network))],
+        axioms=P.AX_PLACE + A.AX_MEMNAME + A.AX_SORTED + A.AX_NAMESETS,
+        local_types={"variables": LNm},
+        loops={0: LoopContract("for node in encoded_network.nodes()", lambda c: [
+            ("collected_so_far", z3.And(LNm.len(c.variables) >= 0, z3.ForAll([vq], A.MemName(c.variables, vq) == z3.And(
+                c.visited[P.place(vq, False)], G_.nodes(c.encoded_network)[P.place(vq, False)])))),
+            ("no_duplicates", distinct(c.variables))])},
+        note="variables = names v whose negative place b0_v is a node; sorted",
+    ))
+
+    def src_inv(c):
+        g = c.encoded_network
+        return [("removed_so_far", z3.ForAll([vq], c.source_set[vq] == z3.And(A.VarSetG(g)[vq], z3.Not(A.changed_by_some(g, vq, among=c.visited))))),
+                ("visited_nodes", z3.ForAll([nq], z3.Implies(c.visited[nq], G_.nodes(g)[nq])))]
+
+    reg.add(Contract(
+        "biobalm.petri_net_translation.extract_source_variables", params=[("encoded_network", P.TPNG)], result_type=LNm,
+        properties=("C09", "C02", "C19", "C18"),
+        requires=[wf_names],
+        ensures=[("sorted_enumeration_of_the_unchanged_variables", lambda c: c.result == A.SortedNames(A.SrcSetG(c.encoded_network))),
+                 ("element_set", lambda c: A.LSetF(c.result) == A.SrcSetG(c.encoded_network))],
+        axioms=P.AX_PLACE + A.AX_MEMNAME + A.AX_SORTED + A.AX_NAMESETS,
+        local_types={"variables": LNm, "source_set": TSet(TName), "source_nodes": LNm},
+        loops={0: LoopContract("for _, change_var in encoded_network.nodes(data='change')", src_inv)},
+        note="variables that no transition changes (attribute `change` of the transition nodes), sorted",
+    ))
